@@ -215,6 +215,10 @@ func SymAllocs() int { return 0 }
 // Quiesce lets all other goroutines run until each is blocked or finished (native: a short sleep).
 func Quiesce() { time.Sleep(20 * time.Millisecond) }
 
+// Guard declares that map m is protected by the mutex at mu (lock-discipline monitor: every
+// later access to m without holding mu is a violation, as Go aborts on concurrent map access).
+func Guard(m interface{}, mu interface{}, name string) {}
+
 func Yield()                 {}
 func SetMapOrderLimit(n int) {}
 func SetPreempt(n int)       {}
